@@ -840,6 +840,20 @@ func c9GlobalTables(c *Ctx, rule string) {
 				if ia, ok := x.Addr.(*ssa.IndexAddr); ok {
 					tbl = ia.X
 				}
+			case *ssa.Call:
+				// a small generic helper that stores into the map it is handed: the write happens here
+				if h := x.Call.StaticCallee(); smallGenericHelper(h) {
+					for ai, a := range x.Call.Args {
+						if ai >= len(h.Params) {
+							break
+						}
+						AllInstrs(h, func(hi ssa.Instruction) {
+							if mu, isMu := hi.(*ssa.MapUpdate); isMu && mu.Map == ssa.Value(h.Params[ai]) {
+								tbl = a
+							}
+						})
+					}
+				}
 			}
 			if tbl == nil {
 				return
